@@ -661,13 +661,13 @@ func sinfo(a []string) string {
 			return errOut
 		}
 		if !sel(p) {
-			return "PANIC"
+			return errOut
 		}
 	}
 	if a[8] != "N" {
 		p, _ := q.Frame(argz(a[8]))
 		if !sel(p) {
-			return "PANIC"
+			return errOut
 		}
 	}
 	return fmt.Sprintf("OK error=0 string=%s dir=%s base=%s range=%s pad=%s ext=%s start=%d end=%d length=%d zfill=%d hasRange=%s",
